@@ -16,21 +16,30 @@ Theorem C15_confined : forall e0 d script,
 Proof. exact tmp_confined. Qed.
 Print Assumptions C15_confined.
 
-Theorem C15_listing_oracle : forall before during after, tmp_ok before during after = true ->
+Theorem C15_listing_oracle : forall cfg before during after, tmp_ok cfg before during after = true ->
   (incl before after /\ incl after before) /\
   forall l, In l during -> incl before l /\
-    exists extra, (extra = [] \/ exists d, extra = [d] /\ has_sep d = false) /\
+    exists extra, (extra = [] \/ exists d, extra = [d] /\ direct_child cfg d = true) /\
                   forall x, In x l -> In x before \/ In x extra.
 Proof. exact tmp_ok_spec. Qed.
 Print Assumptions C15_listing_oracle.
 
+Theorem C15_direct_child : forall cfg d, direct_child cfg d = true ->
+  exists name, d = cfg ++ [47] ++ name /\ name <> [] /\ has_sep name = false.
+Proof. exact direct_child_spec. Qed.
+Print Assumptions C15_direct_child.
+
+(* "c" = configured directory, "o" = where TMPDIR points; ".t" = the sorter's own directory *)
 Example C15_nonvacuous :
   let e0 := [[107]; [100; 105; 114]] in
   let script := [TCreateChunk; TCreateChunk; TNextItem; TDropIter; TDropSorter] in
+  let b := [[99]; [99; 47; 107]; [111]] in
   ~ In [46; 116] e0 /\ In TDropSorter script /\
   t_entries (trun (mkT e0 None 0) (TBuild [46; 116] :: script)) = e0 /\
-  tmp_ok e0 [[46; 116] :: e0; e0] e0 = true /\ tmp_ok e0 [[46; 116] :: [46; 116; 47; 120] :: e0] e0 = false /\
-  tmp_ok e0 [e0] ([46; 116] :: e0) = false.
+  tmp_ok [99] b [[99; 47; 46; 116] :: b; b] b = true /\
+  tmp_ok [99] b [[111; 47; 46; 116] :: b] b = false /\          (* created under TMPDIR instead *)
+  tmp_ok [99] b [[99; 47; 46; 116] :: [99; 47; 46; 116; 47; 120] :: b] b = false /\   (* visible chunk file *)
+  tmp_ok [99] b [b] ([99; 47; 46; 116] :: b) = false.            (* left behind *)
 Proof.
   split; [intros [H|[H|[]]]; discriminate|]. split; [cbn; tauto|].
   split; [vm_compute; reflexivity|]. repeat split; vm_compute; reflexivity.
